@@ -480,6 +480,7 @@ func C06(c *core.Ctx) {
 		// the peer retransmits up to MaxRetrans times, one RetransTimeout apart: the response has to be kept for
 		// RetransTimeout x (MaxRetrans + 1) so that the last retransmission still finds it — evaluated as a
 		// polynomial in the two configured values, whatever way the product is written
+		polyWhy = ""
 		pl, ok := polyOf(st.Val, func(v ssa.Value) string {
 			if _, names := core.FieldPath(v); len(names) > 0 {
 				switch names[len(names)-1] {
@@ -498,6 +499,9 @@ func C06(c *core.Ctx) {
 			}
 		}
 		how := "not a polynomial in the two configured values"
+		if polyWhy != "" {
+			how = polyWhy
+		}
 		if ok {
 			how = "T = RetransTimeout, N = MaxRetrans: " + pl.String()
 		}
